@@ -167,7 +167,7 @@ class Gen:
         where = None
         if r.random() < 0.6:
             # correlated or local predicate
-            where = self.bool_expr(sscope, scope, 1)
+            where = self.bool_expr(sscope, None if self.f["sub_top_only"] else scope, 1)
         kinds = self.f["subq"]
         k = {"in": 0.2, "exists": 0.6, "scalar": 0.9}[r.choice(kinds)]
         if self.f["sub_top_only"]:
@@ -187,7 +187,7 @@ class Gen:
         if k < 0.8:
             sub = dict(sel=[(("ci", 1), "s1")], frm=("t", t, al), where=where, grp=[], hav=None, agg=False,
                        dist=False, ord=[], lim=-1, off=0)
-            return ("exists", sub, r.random() < 0.4, BOOL)
+            return ("exists", sub, r.random() < 0.4 and self.f["not_in_sub"], BOOL)
         f = r.choice(["max", "min", "count", "sum"])
         if self.f["sub_top_only"]:
             where = self.bool_expr(sscope, None, 1) if r.random() < 0.5 else None
@@ -291,10 +291,6 @@ class Gen:
             used = set()
             for e, _ in q["sel"]:
                 aliases_of(e, used)
-            for e in [q["where"], q["hav"]] + list(q["grp"]):
-                if e is not None:
-                    aliases_of(e, used)
-            aliases_from_on(q["frm"], used)
             n = len(q["sel"])
             for al in sorted({a for a, _, _ in scope} - used):
                 col = [c for c in scope if c[0] == al][0]
